@@ -95,6 +95,28 @@ impl<'a, 'b> Ctx<'a, 'b> {
         new
     }
 
+    /// The pending timeout of a bucket's candidate elapses (hook; `None`: no timeout elapses) and the
+    /// table is accessed: a plain iteration applies every ready pending node. The queue of applied
+    /// pending nodes is emptied before the table is hashed (the service loop takes from it whenever
+    /// it runs, turning each entry into a NodeInserted event).
+    fn pending_timeout_and_iteration(&mut self, force: Option<usize>) {
+        if let Some(bucket) = force {
+            let before = snapshot(&self.a.s.kbuckets.read());
+            self.a.s.kbuckets.write().verif_force_pending_ready(bucket);
+            self.hist.add("c12:op_pending_timeout");
+            self.record(&before, format!("XReady {}", bucket), vec![], "pending_timeout", None, &[]);
+        }
+        let before = snapshot(&self.a.s.kbuckets.read());
+        let _ = self.a.s.kbuckets.write().iter().count();
+        while self.a.s.kbuckets.write().take_applied_pending().is_some() {}
+        self.hist.add("c12:op_iteration");
+        self.record(&before, "XIter".to_string(), vec![], "iteration", None, &[]);
+        let after = snapshot(&self.a.s.kbuckets.read());
+        if before.iter().filter(|x| x.2).count() > after.iter().filter(|x| x.2).count() {
+            self.hist.add("c12:iteration_applied_or_dropped_a_pending_node");
+        }
+    }
+
     /// Records one model step: the operation, the observable part of its result and the table.
     fn record(&mut self, before: &Snapshot, op: String, obs: Vec<u64>, what: &str, allowed_new: Option<K32>, offered: &[usize]) {
         self.now += 1;
@@ -205,6 +227,200 @@ impl<'a, 'b> Ctx<'a, 'b> {
     }
 }
 
+fn v4_host(ident: usize) -> ([u8; 4], u16) {
+    ([10, 0, 0, (ident % 250) as u8 + 1], 30303)
+}
+fn v6_host(ident: usize) -> ([u8; 16], u16) {
+    ([0x20, 1, 0xd, 0xb8, 0, 0, 0, 0, 0, 0, 0, 0, 0, 0, 0, (ident % 250) as u8 + 1], 9001)
+}
+
+/// Scripted opening of some cases with IP limiting (dual stack, accept-all table filter): every step is
+/// a real service operation, recorded as a model step like the random operations are.
+///  1. the bucket with the most identities is filled (add_enr) with 15 records that have only an IPv6
+///     address and one record of 10.0.0.0/24 (not the bucket's head);
+///  2. 9 nodes of other buckets (at most 2 per bucket) with records of 10.0.0.0/24 are added: the table
+///     holds 10 nodes of that /24, the full bucket one of them;
+///  3. a session with a 17th node of the full bucket (IPv6-only record): it becomes the pending candidate;
+///  4. a lookup for the candidate's id; the first queried peer answers with a newer record of the
+///     candidate that has an address in 10.0.0.0/24;
+///  5. the candidate's pending timeout elapses (hook) and the table is iterated.
+/// A step that cannot be set up ends the opening (never a failure).
+async fn ip_limit_opening(c: &mut Ctx<'_, '_>) {
+    let idents = c.idents;
+    let local_id = idents[c.local].id;
+    c.hist.add("c12:opening_attempted");
+    let mut by_d: std::collections::BTreeMap<u64, Vec<usize>> = Default::default();
+    for (i, x) in idents.iter().enumerate() {
+        if i != c.local && x.id != local_id {
+            by_d.entry(log2dist(&local_id, &x.id)).or_default().push(i);
+        }
+    }
+    let (dmax, big) = match by_d.iter().max_by_key(|(d, v)| (v.len(), **d)) {
+        Some((d, v)) => (*d, v.clone()),
+        None => return,
+    };
+    let mut others: Vec<usize> = vec![];
+    for (d, v) in by_d.iter().rev() {
+        if *d != dmax {
+            others.extend(v.iter().take(2));
+        }
+    }
+    if big.len() < 17 || others.len() < 9 {
+        c.hist.add("c12:opening_skipped_too_few_identities");
+        return;
+    }
+    let bucket = (dmax - 1) as usize;
+    // 1. + 2.: the user adds 16 + 9 nodes
+    let mut adds: Vec<RecSpec> = vec![];
+    for (n, i) in big.iter().take(16).enumerate() {
+        adds.push(RecSpec { ident: *i, seq: 1, udp4: if n == 9 { Some(v4_host(*i)) } else { None }, udp6: Some(v6_host(*i)), size: 0 });
+    }
+    for i in others.iter().take(9) {
+        adds.push(RecSpec { ident: *i, seq: 1, udp4: Some(v4_host(*i)), udp6: None, size: 0 });
+    }
+    for spec in &adds {
+        let before = snapshot(&c.a.s.kbuckets.read());
+        let ri = c.recs.get(spec);
+        let enr = c.recs.list[ri].enr.clone();
+        let code = add_code(c.a.s.discv5.add_enr(enr));
+        let vid = c.recs.list[ri].vid;
+        c.hist.add(&format!("c12:op_add_enr_{}", code));
+        c.record(&before, format!("XAdd {}", vid), vec![code], "add_enr", Some(idents[spec.ident].id), &[ri]);
+        if code != 0 {
+            c.hist.add("c12:opening_ended_add_refused");
+            return;
+        }
+    }
+    {
+        let (b, _) = dump_table(&c.a.s.kbuckets.read());
+        let full = b.iter().any(|x| x.idx == bucket && x.nodes.len() == 16 && x.pending.is_none());
+        let in24 = b.iter().flat_map(|x| x.nodes.iter()).filter(|n| n.enr.ip4().map(|ip| ip.octets()[..3] == [10, 0, 0]).unwrap_or(false)).count();
+        if !full || in24 != 10 {
+            c.hist.add("c12:opening_ended_table_not_as_planned");
+            return;
+        }
+    }
+    // 3. a session with the 17th node of the full bucket
+    let cand = big[16];
+    let cand_id = idents[cand].id;
+    {
+        let before = snapshot(&c.a.s.kbuckets.read());
+        let ri = c.recs.get(&RecSpec { ident: cand, seq: 1, udp4: None, udp6: Some(v6_host(cand)), size: 0 });
+        let enr = c.recs.list[ri].enr.clone();
+        let sock = contactable(c.mode, &enr).unwrap_or(sock4([10, 0, 0, 99], 1));
+        c.a.inject(HandlerOut::Established(enr, sock, ConnectionDirection::Outgoing)).await;
+        let evs = c.a.events();
+        let inserted = evs.iter().any(|e| matches!(e, Event::NodeInserted { node_id, replaced: None } if node_id.raw() == cand_id));
+        c.absorb();
+        let vid = c.recs.list[ri].vid;
+        c.hist.add("c12:op_established");
+        c.record(&before, format!("XEst {} {}", vid, coq_bool(false)), vec![inserted as u64], "established", Some(cand_id), &[ri]);
+    }
+    if !snapshot(&c.a.s.kbuckets.read()).iter().any(|(k, _, pending)| *k == cand_id && *pending) {
+        c.hist.add("c12:opening_ended_candidate_not_pending");
+        return;
+    }
+    // 4. a lookup for the candidate's id: the first queried peer answers with a newer record of the
+    // candidate (the first distance a lookup requests from a peer is the peer's distance to the target)
+    let handle = tokio::spawn(c.a.s.discv5.find_node(NodeId::new(&cand_id)));
+    settle().await;
+    let mut queue = c.absorb();
+    let first = queue.iter().cloned().find(|oi| c.outstanding[*oi].kind == ReqKind::FindNode && c.outstanding[*oi].ident != usize::MAX);
+    let mut answered = false;
+    if let Some(oi) = first {
+        let before = snapshot(&c.a.s.kbuckets.read());
+        let o = &c.outstanding[oi];
+        let (rid, src, addr, ds) = (o.id.clone(), o.ident, o.addr.clone(), o.distances.clone());
+        let src_id = idents[src].id;
+        if ds.contains(&log2dist(&src_id, &cand_id)) {
+            let ri = c.recs.get(&RecSpec { ident: cand, seq: 2, udp4: Some(v4_host(cand)), udp6: Some(v6_host(cand)), size: 0 });
+            let enr = c.recs.list[ri].enr.clone();
+            c.a.inject(HandlerOut::Response(addr, Box::new(Response { id: rid, body: ResponseBody::Nodes { total: 1, nodes: vec![enr.clone()] } }))).await;
+            let _ = c.a.events();
+            c.outstanding[oi].kind = ReqKind::Ping; // consumed (never used again)
+            c.outstanding[oi].id = RequestId(vec![]);
+            queue.extend(c.absorb());
+            let vid = c.recs.list[ri].vid;
+            c.hist.add("c12:op_discovered");
+            c.record(&before, format!("XDisc {} [{}]", coq_hex(&src_id), vid), vec![], "discovered", None, &[ri]);
+            answered = true;
+            // what became of the candidate (observation, not a check)
+            let after = snapshot(&c.a.s.kbuckets.read());
+            c.hist.add(match after.iter().find(|(k, _, _)| *k == cand_id) {
+                None => "c12:opening_newer_record_of_pending_candidate_candidate_removed",
+                Some((_, e, true)) if *e == enr => "c12:opening_newer_record_of_pending_candidate_stored",
+                Some((_, _, true)) => "c12:opening_newer_record_of_pending_candidate_refused_candidate_kept_with_old_record",
+                Some((_, _, false)) => "c12:opening_newer_record_of_pending_candidate_candidate_promoted",
+            });
+        }
+    }
+    // the lookup is brought to its end: its other requests fail (a running lookup keeps the records of
+    // the table entries it started from, which the service consults besides the table); the candidate
+    // itself, should it be asked, answers with no records
+    let mut guard = 0;
+    while let Some(oi) = queue.first().cloned() {
+        queue.remove(0);
+        guard += 1;
+        if guard > 80 {
+            break;
+        }
+        if c.outstanding[oi].kind != ReqKind::FindNode || c.outstanding[oi].id.0.is_empty() || c.outstanding[oi].ident == usize::MAX {
+            continue;
+        }
+        let before = snapshot(&c.a.s.kbuckets.read());
+        let o = &c.outstanding[oi];
+        let (rid, src, addr) = (o.id.clone(), o.ident, o.addr.clone());
+        let src_id = idents[src].id;
+        if src == cand {
+            c.a.inject(HandlerOut::Response(addr, Box::new(Response { id: rid, body: ResponseBody::Nodes { total: 1, nodes: vec![] } }))).await;
+            c.outstanding[oi].kind = ReqKind::Ping;
+            c.outstanding[oi].id = RequestId(vec![]);
+            queue.extend(c.absorb());
+            c.hist.add("c12:op_discovered");
+            c.record(&before, format!("XDisc {} []", coq_hex(&src_id)), vec![], "discovered", None, &[]);
+        } else {
+            c.a.inject(HandlerOut::RequestFailed(rid, RequestError::Timeout)).await;
+            c.outstanding[oi].id = RequestId(vec![]);
+            queue.extend(c.absorb());
+            c.hist.add("c12:op_failure");
+            c.record(&before, format!("XFailure {}", coq_hex(&src_id)), vec![], "failure", None, &[]);
+        }
+    }
+    settle().await;
+    if !handle.is_finished() {
+        c.hist.add("c12:opening_lookup_left_running");
+        handle.abort();
+    }
+    c.outstanding.retain(|o| !o.id.0.is_empty());
+    if !answered {
+        c.hist.add("c12:opening_ended_no_lookup_request");
+        return;
+    }
+    // 5. the pending timeout elapses and the table is accessed
+    c.pending_timeout_and_iteration(Some(bucket));
+    c.hist.add("c12:opening_full_scenario");
+    let after = snapshot(&c.a.s.kbuckets.read());
+    c.hist.add(match after.iter().find(|(k, _, _)| *k == cand_id) {
+        Some((_, e, false)) if e.seq() == 2 => "c12:opening_candidate_promoted_with_newer_record",
+        Some((_, _, false)) => "c12:opening_candidate_promoted_with_old_record",
+        Some((_, _, true)) => "c12:opening_candidate_still_pending",
+        None => "c12:opening_candidate_dropped",
+    });
+}
+
+fn add_code(r: Result<(), &'static str>) -> u64 {
+    match r {
+        Ok(()) => 0,
+        Err("ENR has no compatible UDP socket to connect to") => 1,
+        Err("ENR banned by table filter") => 2,
+        Err("Table full") => 3,
+        Err("Failed bucket filter") => 4,
+        Err("Failed table filter") => 5,
+        Err("Invalid self update") => 6,
+        Err(_) => 7,
+    }
+}
+
 pub fn run_case(idents: &[Ident], idx: u64, rng: &mut Rng, thorough: bool, hist: &mut Hist) -> CaseResult {
     let rt = runtime();
     rt.block_on(async {
@@ -212,6 +428,11 @@ pub fn run_case(idents: &[Ident], idx: u64, rng: &mut Rng, thorough: bool, hist:
         let mode_n = rng.below(3);
         let filter_n = *rng.pick(&[0u64, 0, 1, 2, 2, 3, 3]);
         let ip_limit = rng.chance(1, 6) || FORCE_IP_LIMIT.load(std::sync::atomic::Ordering::SeqCst);
+        // with IP limiting forced ("c12ip") one case out of four starts with a scripted opening, in dual
+        // stack mode (records with only an IPv6 address are contactable and outside the /24 rules)
+        // with the accept-all table filter
+        let scripted = FORCE_IP_LIMIT.load(std::sync::atomic::Ordering::SeqCst) && idx % 4 == 1;
+        let (mode_n, filter_n) = if scripted { (2, 0) } else { (mode_n, filter_n) };
         let mode = [IpMode::Ip4, IpMode::Ip6, IpMode::DualStack][mode_n as usize];
         let mut recs = Recs::new(idents);
         // the actors of this case
@@ -263,6 +484,9 @@ pub fn run_case(idents: &[Ident], idx: u64, rng: &mut Rng, thorough: bool, hist:
         c.hist.add(&format!("c12:mode_{:?}{}", mode, if from_sockets { "_from_sockets" } else { "" }));
         c.hist.add(&format!("c12:filter_{}", ["accept_all", "reject_all", "reject_subnet", "reject_seq_ge_100"][filter_n as usize]));
         let nsteps = if thorough { rng.range(30, 70) } else { rng.range(18, 40) };
+        if scripted && c.a.alive() {
+            ip_limit_opening(&mut c).await;
+        }
         for _ in 0..nsteps {
             if !c.a.alive() {
                 c.failures.push(("C12".into(), "the service task ended (panic)".into()));
@@ -299,17 +523,7 @@ pub fn run_case(idents: &[Ident], idx: u64, rng: &mut Rng, thorough: bool, hist:
                     let i = pick_actor(rng);
                     let ri = c.recs.get(&shape(rng, i));
                     let enr = c.recs.list[ri].enr.clone();
-                    let r = c.a.s.discv5.add_enr(enr);
-                    let code = match r {
-                        Ok(()) => 0,
-                        Err("ENR has no compatible UDP socket to connect to") => 1,
-                        Err("ENR banned by table filter") => 2,
-                        Err("Table full") => 3,
-                        Err("Failed bucket filter") => 4,
-                        Err("Failed table filter") => 5,
-                        Err("Invalid self update") => 6,
-                        Err(_) => 7,
-                    };
+                    let code = add_code(c.a.s.discv5.add_enr(enr));
                     let vid = c.recs.list[ri].vid;
                     c.hist.add(&format!("c12:op_add_enr_{}", code));
                     c.record(&before, format!("XAdd {}", vid), vec![code], "add_enr", Some(idents[i].id), &[ri]);
@@ -481,7 +695,9 @@ pub fn run_case(idents: &[Ident], idx: u64, rng: &mut Rng, thorough: bool, hist:
                     c.record(&before, format!("XDisc {} [{}]", coq_hex(&idents[o.ident].id), vid), vec![], "discovered", None, &[ri]);
                 }
                 _ => {
-                    // the ping interval elapses: connected peers are pinged (no table operation)
+                    // the ping interval elapses: connected peers are pinged (no table operation; the
+                    // routing table reads std::time::Instant, which the paused tokio clock does not move:
+                    // a pending node's timeout does not elapse here)
                     tokio::time::advance(std::time::Duration::from_secs(301)).await;
                     settle().await;
                     let n = c.absorb().len();
